@@ -1,0 +1,21 @@
+//go:build verif
+
+package keystore
+
+// VerifX14Consts returns the unexported path constants DescribeKeyRing / DescribeRotatedKeyRing compare with
+// (verification hook of work package x14log, add-only).
+func VerifX14Consts() (names map[string]string, indexes map[string]int) {
+	return map[string]string{
+			"clientPrefix":             clientPrefix,
+			"storageSuffix":            storageSuffix,
+			"hmacSymmetricSuffix":      hmacSymmetricSuffix,
+			"storageSymmetricSuffix":   storageSymmetricSuffix,
+			"poisonKeyPath":            poisonKeyPath,
+			"auditLogSymmetricKeyPath": auditLogSymmetricKeyPath,
+			"poisonSymmetricKeyPath":   poisonSymmetricKeyPath,
+		}, map[string]int{
+			"clientPrefixIndex": clientPrefixIndex,
+			"clientIDIndex":     clientIDIndex,
+			"purposeIndex":      purposeIndex,
+		}
+}
